@@ -288,5 +288,79 @@ func TestVerifC13(t *testing.T) {
 			time.Sleep(200 * time.Microsecond)
 		}
 	}
+	// ---- the slot when a group subscribe fails, and when a bounded one is cancelled at its end ----
+	{
+		// (a) a Subscribe that returns an error leaves the group's slot as it was
+		if err := srv.createStream("s13e", 1, nil); err != nil {
+			t.Fatal(err)
+		}
+		pe := srv.waitLeader("s13e", 0)
+		fails := []*client.SubscribeRequest{
+			{Stream: "s13e", Partition: 0, Reverse: true, StartPosition: client.StartPosition_LATEST}, // nothing committed: no reader
+			{Stream: "s13e", Partition: 0, StartPosition: client.StartPosition_OFFSET, StartOffset: 5, StopPosition: client.StopPosition_STOP_OFFSET, StopOffset: 2},
+		}
+		for k, req := range fails {
+			req.Consumer = &client.Consumer{GroupId: "gfail", ConsumerId: "c1", GroupEpoch: 4}
+			before := pe.GetGroupConsumer("gfail")
+			ctx, cancel := context.WithCancel(context.Background())
+			sub, st := pe.Subscribe(ctx, req)
+			if st == nil {
+				cancel()
+				select {
+				case <-sub.Errors():
+				case <-time.After(2 * time.Second):
+				}
+				stats[fmt.Sprintf("probe/failing-subscribe-%d-accepted", k)]++
+				deadline := time.Now().Add(2 * time.Second)
+				for pe.GetGroupConsumer("gfail") != nil && time.Now().Before(deadline) {
+					time.Sleep(time.Millisecond)
+				}
+				continue
+			}
+			cancel()
+			stats["probe/failed-subscribe"]++
+			if after := pe.GetGroupConsumer("gfail"); after != before {
+				out.emit(vM{"k": "violation", "sig": "failed-subscribe-holds-slot", "what": fmt.Sprintf("group subscribe (reverse=%v start=%v stop=%v) failed with %q and still took the group's slot on the partition: later members are refused by a subscription that does not exist", req.Reverse, req.StartPosition, req.StopPosition, st.Message()),
+					"case": vM{"k": "probe", "probe": "failed-subscribe", "variant": k}})
+				break
+			}
+		}
+		// (b) a bounded group subscription that is cancelled right after its last message frees the slot
+		for i := 0; i < 3; i++ {
+			srv.api.Publish(context.Background(), &client.PublishRequest{Stream: "s13e", Partition: 0, Value: []byte(fmt.Sprintf("m%d", i)), AckPolicy: client.AckPolicy_LEADER})
+		}
+		for round := 0; round < 4; round++ {
+			ctx, cancel := context.WithCancel(context.Background())
+			sub, st := pe.Subscribe(ctx, &client.SubscribeRequest{Stream: "s13e", Partition: 0, StartPosition: client.StartPosition_EARLIEST,
+				StopPosition: client.StopPosition_STOP_OFFSET, StopOffset: 2,
+				Consumer: &client.Consumer{GroupId: "gstop", ConsumerId: "c1", GroupEpoch: uint64(10 + round)}})
+			if st != nil {
+				out.emit(vM{"k": "violation", "sig": "bounded-subscribe-refused", "what": "bounded group subscribe refused: " + st.Message(), "case": vM{"k": "probe", "probe": "bounded", "round": round}})
+				cancel()
+				break
+			}
+			got := 0
+			for got < 3 {
+				select {
+				case <-sub.Messages():
+					got++
+				case <-time.After(3 * time.Second):
+					got = 99
+				}
+			}
+			cancel() // the client goes away without reading the final status: the API handler returns
+			sub.Close() // ... and closes the subscription on its way out, as apiServer.Subscribe does
+			stats["probe/bounded-cancelled-at-end"]++
+			deadline := time.Now().Add(3 * time.Second)
+			for pe.GetGroupConsumer("gstop") != nil && time.Now().Before(deadline) {
+				time.Sleep(time.Millisecond)
+			}
+			if pe.GetGroupConsumer("gstop") != nil {
+				out.emit(vM{"k": "violation", "sig": "slot-never-freed", "what": "a group subscription with a stop offset delivered its last message, the client went away without reading the final status (context cancelled, subscription closed), and 3 s later the subscription still holds the group's slot on the partition",
+					"case": vM{"k": "probe", "probe": "bounded", "round": round}})
+				break
+			}
+		}
+	}
 	out.emit(vM{"k": "stat", "dist": stats})
 }
